@@ -796,8 +796,15 @@ def c04_parax_centred(ctx):
 
 def no_stale(ctx):
     from .common import stale_cache
+    from .common import anchor_classes
+    # scale_system reaches the physical apertures (APERTURE-SCALED-ONCE):
+    # state added to them outlives the scaling as well
+    aps = [k for k, c in ctx.P.classes.items()
+           if c.module == 'optiland/physical_apertures.py']
     return stale_cache(ctx, 'NO-STALE-STATE', [],
-                       'the re-described lens is answered with values of the original one', min_methods=0)
+                       'the re-described lens is answered with values of the '
+                       'original one', min_methods=0,
+                       new_state=sorted(set(anchor_classes(ctx)) | set(aps)))
 
 
 # --------------------------------------------------------------------------
@@ -958,4 +965,12 @@ def length_grades(ctx):
         raise AnalysisError(f'LENGTH-GRADES: only {nsum} sums found')
     return res
 
-RULES = [length_grades, no_stale, c04_parax_centred, c17_pol_local_frame, aperture_scaled_once, c01_insertion, c03_registry, c03_xy_exchange, scale_covers, c04_chief_ray, c01_arg_wiring_rule, c01_init_stores, scale_homogeneous, scale_system, scale_relies_on_thickness_edit, mirror, w_flow, dummy_identity]
+
+def derived_sync_rule(ctx):
+    """a value derived from a length in a constructor (a squared radius, a
+    cached limit) is brought up to date wherever that length is written -
+    scale() and scale_system included"""
+    from .common import derived_sync
+    return derived_sync(ctx, 'DERIVED-SYNC')
+
+RULES = [derived_sync_rule, length_grades, no_stale, c04_parax_centred, c17_pol_local_frame, aperture_scaled_once, c01_insertion, c03_registry, c03_xy_exchange, scale_covers, c04_chief_ray, c01_arg_wiring_rule, c01_init_stores, scale_homogeneous, scale_system, scale_relies_on_thickness_edit, mirror, w_flow, dummy_identity]
